@@ -552,6 +552,7 @@ func (e *Exec) resolveMod(env *Env, m ModItem) (targets []modTarget, everything 
 		}
 		kty, vty := tyOfGo(mt.Key()), tyOfGo(mt.Elem())
 		e.ensureSortDecl(vty)
+		e.mapTypeTag(v.T, mt)
 		pn, vn := mapPHeapName(kty, vty), mapVHeapName(kty, vty)
 		e.regHeap(pn, "(Array Int (Array "+kty.Sort()+" Bool))")
 		e.regHeap(vn, "(Array Int (Array "+kty.Sort()+" "+vty.Sort()+"))")
